@@ -168,3 +168,20 @@ Fixpoint mism_from (v : variant) (i : nat) (cs : list case) : list nat :=
   | c :: t => if agrees v c then mism_from v (S i) t else i :: mism_from v (S i) t
   end.
 Definition mismatches (v : variant) (cs : list case) : list nat := mism_from v 0 cs.
+
+(* ---- C12: a resumed run observed on the real code against the suffix of the model's uninterrupted run
+        (equal to the model's resumed run by DF.Resume.resume_from_emitted) ---- *)
+Record rcase := mkrcase {
+  r_case : case;                                   (* the uninterrupted run and what it emitted *)
+  r_cut : nat;                                     (* checkpoint taken after this many batches *)
+  r_obs : list (option (oval * oval)) }.           (* what the pipeline restarted from that state emitted *)
+Definition ragrees (v : variant) (rc : rcase) : bool :=
+  let c := r_case rc in
+  agrees v c &&
+  list_cmp (step_cmp (c_quot c)) (r_obs rc) (skipn (r_cut rc) (model_run v (c_agg c) (c_filt c) (c_batches c))).
+Fixpoint rmism_from (v : variant) (i : nat) (cs : list rcase) : list nat :=
+  match cs with
+  | [] => []
+  | c :: t => if ragrees v c then rmism_from v (S i) t else i :: rmism_from v (S i) t
+  end.
+Definition rmismatches (v : variant) (cs : list rcase) : list nat := rmism_from v 0 cs.
